@@ -624,6 +624,11 @@ def _s2_copy_path(init: Func, res: RuleResult):
                     for t, v in pairs:
                         c = attr_chain(t)
                         if c and c[0] == "self":
+                            if isinstance(v, ast.Name):       # a local of the arm stands for its single definition
+                                ds_ = [s_.value for s_ in n.body if isinstance(s_, ast.Assign) and len(s_.targets) == 1
+                                       and isinstance(s_.targets[0], ast.Name) and s_.targets[0].id == v.id]
+                                if len(ds_) == 1:
+                                    v = ds_[0]
                             srcs[c[1]] = norm(v)
             ik = srcs.get("_group_ikey")
             pt = srcs.get("_group_key_pointers")
